@@ -247,9 +247,9 @@ func FieldAccesses(fn *ssa.Function) []FieldAcc {
 // receiver or first parameter), fields, constants and calls. Local names
 // never appear, so renaming or reordering locals leaves terms unchanged.
 type Termer struct {
-	fn      *ssa.Function
-	memo    map[ssa.Value]string
-	active  map[ssa.Value]bool
+	fn       *ssa.Function
+	memo     map[ssa.Value]string
+	active   map[ssa.Value]bool
 	KeepConv bool
 	// Versioned: loads from address-taken locals carry a version so that a
 	// read before and a read after a possible mutation are different terms.
@@ -1094,7 +1094,6 @@ func typeNamed(t types.Type, name string) bool {
 	return false
 }
 
-
 // forwardedStore: for a load of a struct field through base value B, return
 // the value of the unique store to the same field through the same SSA base
 // in this function, provided that store dominates the load and no
@@ -1177,7 +1176,6 @@ func mayWriteField(ci ssa.CallInstruction, field string, depth int) bool {
 	return w
 }
 
-
 // equivLoad: the dominator-most earlier load of the same field through the
 // same SSA base value such that no store to a field of that name and no call
 // that may write it lies on a path between the two loads; load itself when
@@ -1224,7 +1222,6 @@ func equivLoad(load *ssa.UnOp) *ssa.UnOp {
 	})
 	return best
 }
-
 
 // reachingStore: for a local cell that does not escape, the value of the one
 // direct store that reaches the load on every path (it dominates the load and
